@@ -41,4 +41,10 @@ def r3_equality(run, tree):
     dg.check_eq_quantifier(run, tree)
 
 
-RULES = [r1_delegation, r2_gates, r3_equality]
+def r_conversion(run, tree):
+    from . import array_folds as af
+    run.rule("C20.R4", "'equal after unit conversion' rests on Array.to (shared with C02/C08): scales by the unit ratio, no cast back to the source dtype", "D7 fold of Array.to", "", floor=6)
+    af.check_to_fold(run, tree)
+
+
+RULES = [r_conversion, r1_delegation, r2_gates, r3_equality]
